@@ -152,7 +152,20 @@ fn c08() -> (bool, String) {
         }
     }
     }
-    (false, "counters ok for starts 0, 1, 2^31, 2^32-2, 2^32-1, none (two assertions each)".into())
+    // every successful assertion counts, whatever was asked of the user: mixes of up / uv requests and reports (a silent assertion,
+    // up = false and uv = false, is a successful assertion too)
+    for (up, uv, rep) in [(false, false, (false, false)), (true, false, (true, false)), (false, false, (true, false)), (true, true, (true, true)), (false, false, (false, false))] {
+        let store = RefStore::new(2);
+        let id = register(&store, "a.example", true);
+        store.items.lock().unwrap()[0].counter = Some(5);
+        let mut a = Authenticator::new(Aaguid::new_empty(), store.clone(), Uv { capability: Some(true), report: Ok(rep), shown: Default::default() });
+        let Ok(resp) = block_on(a.get_assertion(ga_request("a.example", None, up, uv))) else { continue };
+        let stored = store.items.lock().unwrap().iter().find(|p| p.credential_id.to_vec() == id).unwrap().counter;
+        if resp.auth_data.counter != Some(6) || stored != Some(6) {
+            return (true, format!("assertion with up={up} uv={uv} (user reports {rep:?}) on counter 5: reported {:?}, stored {stored:?}, expected 6", resp.auth_data.counter));
+        }
+    }
+    (false, "counters ok for starts 0, 1, 2^31, 2^32-2, 2^32-1, none (two assertions each), and for silent / presence-only assertions".into())
 }
 
 fn c04() -> (bool, String) {
@@ -226,6 +239,11 @@ fn c05() -> (bool, String) {
         ("[unknown]", Some(vec![desc(&[9; 16])]), None), ("[b1] under RP a", Some(vec![desc(&b1)]), None), ("[unknown, a2]", Some(vec![desc(&[9; 16]), desc(&a2)]), Some(a2.clone())),
         // descriptors whose type is not "public-key": a list that names nothing usable is still a non-empty allow list
         ("[unknown id, type Unknown]", Some(vec![PublicKeyCredentialDescriptor { ty: PublicKeyCredentialType::Unknown, ..desc(&[9; 16]) }]), None),
+        // entries that are a prefix / an extension of a held id, or empty, name nothing; the id returned is the credential's own
+        ("[prefix of a2, a2]", Some(vec![desc(&a2[..8]), desc(&a2)]), Some(a2.clone())),
+        ("[empty id, a2]", Some(vec![desc(&[]), desc(&a2)]), Some(a2.clone())),
+        ("[a2 extended, a2]", Some(vec![desc(&[&a2[..], &[1u8, 2][..]].concat()), desc(&a2)]), Some(a2.clone())),
+        ("[prefix of a2]", Some(vec![desc(&a2[..8])]), None),
     ];
     for (name, allow, want) in cases {
         let mut a = Authenticator::new(Aaguid::new_empty(), store.clone(), yes());
